@@ -81,4 +81,13 @@ theorem store_default_found (stepsOf : Heap → List (Step Val)) (src : Src Val)
     getStoreDefault stepsOf src v h = (h, .ok m.data) := by
   simp [getStoreDefault, hfound]
 
+/-- **the written slot reads back** ("so that get(p, doc) is v afterwards", for the last step):
+after any successful `vertex.set` — plain or at the end of a cascade — applying the same last
+step to the same parent match in the new store finds the new match, which holds `v` itself -/
+theorem written_slot_reads_back (h h' : Heap) (s : Step Val) (pm m : MNode Val) (v : Val)
+    (hs : vertexSet h s pm v = .ok (h', m)) : singleOf (hview h') s pm = some m ∧ m.data = v := by
+  refine ⟨vertexSet_reads_back h h' s pm m v hs, ?_⟩
+  obtain ⟨_, _, _, hm, _, _⟩ := vertexSet_frame h h' s pm m v hs
+  rw [hm]; rfl
+
 end Treepath.C09
